@@ -16,6 +16,7 @@ Inductive obs :=
 
 Inductive case :=
 | mkCase (c : chart) (vals : vmap) (compat : list (string * string * bool)) (o : obs)
+         (crds_sent : option (list string))   (* crds/ files a real install handed to the cluster, in order *)
 | mkSkip.       (* outside the model: loader error, template error *)
 
 Definition compat_of (tbl : list (string * string * bool)) (constraint ver : string) : bool :=
@@ -76,10 +77,23 @@ Definition obs_agree (m o : obs) : bool :=
   | _, _ => false
   end.
 
+(* what Install.RunWithContext sends from crds/: chrt.CRDObjects() AFTER ProcessDependencies;
+   nothing when ProcessDependencies fails *)
+Definition model_crds (c : chart) (vals : vmap) (tbl : list (string * string * bool)) : list string :=
+  match process_dependencies (compat_of tbl) c vals with
+  | Err _ => []
+  | Ok c' => map fst (crd_objects c' true EmptyString)
+  end.
+
 Definition case_ok (c : case) : bool :=
   match c with
   | mkSkip => true
-  | mkCase ch vals tbl o => obs_agree (model_run ch vals tbl) o
+  | mkCase ch vals tbl o crds =>
+      obs_agree (model_run ch vals tbl) o
+      && match crds with
+         | None => true
+         | Some sent => strs_eqb (model_crds ch vals tbl) sent
+         end
   end.
 
 Fixpoint mismatches_from (i : nat) (cs : list case) : list nat :=
